@@ -12,3 +12,4 @@ def rules(ctx):
     S.c06_r7_multimap(ctx)
     S.loop_completeness_rules(ctx)
     S.staged_root_rules(ctx)
+    S.handle_close_rules(ctx)
